@@ -99,6 +99,8 @@ class QuicConnectionProtocol(asyncio.DatagramProtocol):
         """
         Ping the peer and wait for the response.
         """
+        if self._closed.is_set():
+            raise ConnectionError
         waiter = self._loop.create_future()
         uid = id(waiter)
         self._ping_waiters[uid] = waiter
@@ -142,6 +144,8 @@ class QuicConnectionProtocol(asyncio.DatagramProtocol):
         """
         assert self._connected_waiter is None, "already awaiting connected"
         if not self._connected:
+            if self._closed.is_set():
+                raise ConnectionError
             self._connected_waiter = self._loop.create_future()
             await asyncio.shield(self._connected_waiter)
 
